@@ -602,6 +602,20 @@ class SlidingWindowView(Blockwise):
             del chunks[window_axis]
         chunks = tuple(chunks)
 
+        # The blockwise built below bakes per-block output chunks for exactly
+        # this input layout; pin it (below the overlap) so a later rewrite of
+        # the input -- e.g. a nested sliding-window reduction going native --
+        # cannot change the block grid underneath it.
+        from dask_array._expr import ChunksFreeze
+
+        if isinstance(reduced_input_expr, OverlapInternal):
+            inner = reduced_input_expr.array
+            if inner.dependencies() and not isinstance(inner, ChunksFreeze):
+                reduced_input_expr = OverlapInternal(ChunksFreeze(inner, inner.chunks), reduced_input_expr.axes)
+        elif reduced_input_expr.dependencies() and not isinstance(reduced_input_expr, ChunksFreeze):
+            # window of one element: no overlap node
+            reduced_input_expr = ChunksFreeze(reduced_input_expr, reduced_input_expr.chunks)
+
         dtype = parent.dtype
         return map_blocks(
             _sliding_window_reduce_block,
